@@ -380,12 +380,17 @@ fn gen_msg_c07(rng: &mut Rng, tier: Tier) -> msg::MsgScn {
         Tier::Thorough => 100 + rng.usize(700),
     };
     let mut discs: Vec<String> = Vec::new();
+    // sometimes every level references the next one twice (a duplicate digest the verifier must
+    // refuse at once; walking it instead takes 2^N steps)
+    let double = rng.chance(1, 3);
     for i in 0..n_chain {
         let inner = if i + 1 < n_chain {
-            if rng.bool() {
-                json!({"_sd": [format!("@{}", i + 1)]})
-            } else {
-                json!([{"...": format!("@{}", i + 1)}])
+            let r = format!("@{}", i + 1);
+            match (rng.bool(), double) {
+                (true, false) => json!({"_sd": [r]}),
+                (false, false) => json!([{"...": r}]),
+                (true, true) => json!({"_sd": [r.clone(), r]}),
+                (false, true) => json!([{"...": r.clone()}, {"...": r}]),
             }
         } else {
             json!("bottom")
